@@ -41,7 +41,7 @@ func (e *Engine) execInstr(st *State, fr *Frame, in ssa.Instruction) {
 	case *ssa.FieldAddr:
 		p := e.get(st, fr, x.X).(VPtr)
 		e.assertNonNil(st, fr, fr.sites[x], p)
-		stt := x.X.Type().Underlying().(*types.Pointer).Elem().Underlying().(*types.Struct)
+		stt := under(x.X.Type()).(*types.Pointer).Elem().Underlying().(*types.Struct)
 		np := p
 		np.Path = append(append([]Step{}, p.Path...), Step{Field: stt.Field(x.Field).Name()})
 		np.NonNil = true
@@ -51,7 +51,7 @@ func (e *Engine) execInstr(st *State, fr *Frame, in ssa.Instruction) {
 		fr.vals[x] = s.F[x.Field]
 	case *ssa.IndexAddr:
 		i := e.get(st, fr, x.Index).(Term)
-		switch xt := x.X.Type().Underlying().(type) {
+		switch xt := under(x.X.Type()).(type) {
 		case *types.Slice:
 			s := e.get(st, fr, x.X).(VSlice)
 			e.Assert(st, fr, "index", fr.sites[x], And(Le(TZero, i), Lt(i, s.Len)))
@@ -73,7 +73,7 @@ func (e *Engine) execInstr(st *State, fr *Frame, in ssa.Instruction) {
 		}
 	case *ssa.Index:
 		i := e.get(st, fr, x.Index).(Term)
-		switch xt := x.X.Type().Underlying().(type) {
+		switch xt := under(x.X.Type()).(type) {
 		case *types.Array:
 			a := e.get(st, fr, x.X).(VArr)
 			e.Assert(st, fr, "index", fr.sites[x], And(Le(TZero, i), Lt(i, IntLit(xt.Len()))))
@@ -124,7 +124,7 @@ func (e *Engine) execInstr(st *State, fr *Frame, in ssa.Instruction) {
 		ln := e.get(st, fr, x.Len).(Term)
 		cp := e.get(st, fr, x.Cap).(Term)
 		e.Assert(st, fr, "make", fr.sites[x], And(Le(TZero, ln), Le(ln, cp)))
-		et := x.Type().Underlying().(*types.Slice).Elem()
+		et := under(x.Type()).(*types.Slice).Elem()
 		r := e.alloc(st, et, "make")
 		fr.vals[x] = VSlice{r, TZero, ln, cp}
 	case *ssa.MakeMap:
@@ -181,7 +181,7 @@ func (e *Engine) execSlice(st *State, fr *Frame, x *ssa.Slice) {
 	} else {
 		lo = TZero
 	}
-	switch xt := x.X.Type().Underlying().(type) {
+	switch xt := under(x.X.Type()).(type) {
 	case *types.Slice:
 		s := e.get(st, fr, x.X).(VSlice)
 		if has(x.High) {
@@ -689,7 +689,7 @@ func (e *Engine) changeType(v Value, from, to types.Type) Value {
 }
 
 func (e *Engine) typeTag(t types.Type) Term {
-	return e.sym.Const("type!"+heapTypeName(t), SInt)
+	return IntLit(tagNumber("type!" + heapTypeName(t)))
 }
 
 func (e *Engine) makeInterface(st *State, v Value, t types.Type) Value {
@@ -985,7 +985,7 @@ func (e *Engine) storeBase(fr *Frame, addr ssa.Value, inLoop func(ssa.Value) boo
 			}
 			switch s := v.(type) {
 			case VSlice:
-				et := a.X.Type().Underlying().(*types.Slice).Elem()
+				et := under(a.X.Type()).(*types.Slice).Elem()
 				return s.Arr, "A!" + heapTypeName(et) + "!", true
 			case VPtr:
 				return s.Ref, "A!" + heapTypeName(s.Root) + "!", true
